@@ -1,5 +1,6 @@
 SPECIFICATION Spec
 CONSTANTS
   GuardReserved = TRUE
+  GuardNul = TRUE
   UseEscapedPath = TRUE
 CHECK_DEADLOCK FALSE
